@@ -251,11 +251,9 @@ func (a Bytes) M__add__(other Object) (Object, error) {
 }
 
 func (a Bytes) M__iadd__(other Object) (Object, error) {
-	if b, ok := convertToBytes(other); ok {
-		a = append(a, b...)
-		return a, nil
-	}
-	return NotImplemented, nil
+	// bytes are immutable: appending in place would write into spare capacity
+	// shared with every other reference to a (e.g. a code object's constant)
+	return a.M__add__(other)
 }
 
 func (a Bytes) Replace(args Tuple) (Object, error) {
